@@ -1,7 +1,154 @@
-//! Third acceptance path (C04): `RecordStore::put` of the real `NodeRecordStore` -- records arriving
-//! from the network are only forwarded for validation (`NetworkEvent::UnverifiedRecord`).
+//! Third acceptance path (C04): `RecordStore::put` of the real `NodeRecordStore` -- a record arriving
+//! from the network is only forwarded for validation (`NetworkEvent::UnverifiedRecord`), never made
+//! readable, and oversized / unparseable ones are refused.
+//!
+//! case: {"mode":"storeput","max":N,"prior":[{"key":ks,"obj":spec,"rtype":"chunk"|"pad"|"nonchunk"|"stalehash"}],
+//!        "puts":[{"key":ks,"hdr":tag,"body":spec,"proof":..,"pad_to":len?}]}
+use crate::build::{self, Registry};
+use ant_networking::verif_hooks::record_store as rs;
+use ant_networking::verif_hooks::record_store::KadRecordStore;
+use ant_networking::verif_hooks::{LocalSwarmCmd, NodeRecordStoreConfig};
+use ant_networking::NetworkEvent;
+use ant_protocol::storage::RecordType;
 use serde_json::{json, Value};
+use std::time::{Duration, SystemTime};
+use tokio::sync::mpsc;
+use xor_name::XorName;
 
-pub fn run_case(_case: &Value) -> Value {
-    json!({"error": "storeput not implemented yet"})
+fn snapshot(store: &ant_networking::verif_hooks::UnifiedRecordStore, reg: &Registry, keys: &[libp2p::kad::RecordKey], dir: &std::path::Path) -> Value {
+    let mut ks: Vec<Value> = vec![];
+    for k in keys {
+        let got = store.get(k).map(|r| r.into_owned());
+        ks.push(json!({
+            "key": build::key_name(reg, k.as_ref()),
+            "contains": rs::contains(store, k),
+            "get": got.map(|r| build::describe(reg, &r.value)),
+        }));
+    }
+    let mut files: Vec<String> = std::fs::read_dir(dir)
+        .map(|d| d.filter_map(|e| e.ok()).map(|e| e.file_name().to_string_lossy().to_string()).collect())
+        .unwrap_or_default();
+    files.sort();
+    let mut addrs: Vec<String> = rs::record_addresses_ref(store)
+        .iter()
+        .map(|(k, _a, t)| format!("{}:{}", hex::encode(k.as_ref()), match t { RecordType::Chunk => "chunk".to_string(), RecordType::Scratchpad => "pad".to_string(), RecordType::NonChunk(_) => "nonchunk".to_string() }))
+        .collect();
+    addrs.sort();
+    json!({"keys": ks, "files": files.len(), "file_names": files, "index": addrs, "cache": rs::cache_entries(store).len()})
+}
+
+pub fn run_case(case: &Value) -> Value {
+    let rt = tokio::runtime::Builder::new_current_thread().enable_all().build().expect("runtime");
+    let out = rt.block_on(async {
+        match tokio::time::timeout(Duration::from_secs(60), run_async(case)).await {
+            Ok(v) => v,
+            Err(_) => json!({"error": "case timed out"}),
+        }
+    });
+    drop(rt);
+    out
+}
+
+async fn settle(store: &mut ant_networking::verif_hooks::UnifiedRecordStore, cmd_rx: &mut mpsc::Receiver<LocalSwarmCmd>) {
+    // let the spawned disk writes run and deliver their acknowledgements, as handle_local_cmd does
+    let mut idle = 0;
+    while idle < 6 {
+        tokio::task::yield_now().await;
+        let mut got = false;
+        while let Ok(cmd) = cmd_rx.try_recv() {
+            got = true;
+            match cmd {
+                LocalSwarmCmd::AddLocalRecordAsStored { key, record_type } => rs::mark_as_stored(store, key, record_type),
+                LocalSwarmCmd::RemoveFailedLocalRecord { key } => store.remove(&key),
+                _ => {}
+            }
+        }
+        idle = if got { 0 } else { idle + 1 };
+    }
+}
+
+async fn run_async(case: &Value) -> Value {
+    let mut reg = Registry::default();
+    let dir = std::env::temp_dir().join(format!(
+        "verif-c04-{}-{}",
+        std::process::id(),
+        SystemTime::now().duration_since(SystemTime::UNIX_EPOCH).unwrap().as_nanos()
+    ));
+    std::fs::create_dir_all(&dir).expect("temp dir");
+    let (ev_tx, mut ev_rx) = mpsc::channel::<NetworkEvent>(10_000);
+    let (cmd_tx, mut cmd_rx) = mpsc::channel::<LocalSwarmCmd>(10_000);
+    let cfg = NodeRecordStoreConfig {
+        storage_dir: dir.clone(),
+        historic_quote_dir: dir.clone(),
+        max_records: 64,
+        max_value_bytes: case["max"].as_u64().unwrap_or(4096) as usize,
+        records_cache_size: case.get("cache").and_then(|c| c.as_u64()).unwrap_or(8) as usize,
+        encryption_seed: [7u8; 16],
+    };
+    let mut store = rs::new_node_store(build::peer_id(0), cfg, ev_tx, cmd_tx);
+    settle(&mut store, &mut cmd_rx).await;
+
+    let mut keys: Vec<libp2p::kad::RecordKey> = vec![];
+    for p in case["prior"].as_array().cloned().unwrap_or_default() {
+        let k = build::key(&mut reg, &p["key"]);
+        let hdr = match p["obj"]["t"].as_str().unwrap_or("") { "chunk" => 1, "pad" => 5, "txs" => 2, "reg" => 3, _ => 1 };
+        let v = build::value(&mut reg, hdr, &p["obj"], &None);
+        let rtype = match p["rtype"].as_str().unwrap_or("") {
+            "chunk" => RecordType::Chunk,
+            "pad" => RecordType::Scratchpad,
+            "stalehash" => RecordType::NonChunk(XorName([0x42; 32])),
+            _ => RecordType::NonChunk(XorName::from_content(&v)),
+        };
+        let _ = rs::put_verified(&mut store, build::record(k.clone(), v), rtype);
+        settle(&mut store, &mut cmd_rx).await;
+        if !keys.contains(&k) {
+            keys.push(k);
+        }
+    }
+    // build all puts first so that every key is in the observed universe
+    let now = SystemTime::now();
+    let mut recs = vec![];
+    for p in case["puts"].as_array().cloned().unwrap_or_default() {
+        let proof = if p["proof"].is_object() { Some(build::proof(&mut reg, &p["proof"], now)) } else { None };
+        let k = build::key(&mut reg, &p["key"]);
+        let mut v = build::value(&mut reg, p["hdr"].as_i64().unwrap(), &p["body"], &proof);
+        if let Some(n) = p.get("pad_to").and_then(|n| n.as_u64()) {
+            // trailing bytes after the msgpack body: the length is what the size gate looks at
+            v.resize(n as usize, 0);
+        }
+        if !keys.contains(&k) {
+            keys.push(k.clone());
+        }
+        recs.push(build::record(k, v));
+    }
+    let mut results = vec![];
+    for rec in recs {
+        let before = snapshot(&store, &reg, &keys, &dir);
+        let len = rec.value.len();
+        let h64 = |x: &XorName| u64::from_be_bytes(x.0[..8].try_into().unwrap()) >> 4;
+        let vhash = h64(&XorName::from_content(&rec.value));
+        let held_before = rs::record_addresses_ref(&store).iter().find(|(k, _, _)| *k == rec.key).map(|(_, _, t)| match t {
+            RecordType::Chunk => json!("chunk"),
+            RecordType::Scratchpad => json!("pad"),
+            RecordType::NonChunk(h) => json!({"nonchunk": h64(h)}),
+        });
+        let sent = rec.clone();
+        let r = store.put(rec);
+        settle(&mut store, &mut cmd_rx).await;
+        let mut events = vec![];
+        while let Ok(ev) = ev_rx.try_recv() {
+            events.push(match ev {
+                NetworkEvent::UnverifiedRecord(r) => json!({"unverified": build::key_name(&reg, r.key.as_ref()), "same_record": r.key == sent.key && r.value == sent.value}),
+                other => json!({"other": format!("{other:?}").chars().take(40).collect::<String>()}),
+            });
+        }
+        let after = snapshot(&store, &reg, &keys, &dir);
+        results.push(json!({
+            "res": match r { Ok(()) => "Ok".to_string(), Err(e) => format!("{e:?}") },
+            "len": len, "events": events, "vhash": vhash, "held_before": held_before, "unchanged": before == after, "before": before, "after": after,
+        }));
+    }
+    drop(store);
+    let _ = std::fs::remove_dir_all(&dir);
+    json!({"puts": results})
 }
